@@ -12,21 +12,40 @@ from .. import tu, gen
 PROPERTY = "C13"
 RULE = ("linear: Hypothesis draws linear systems (NLS subclasses implementing x' = A x + B u + c1, y = C x' + D u + c2; state / input / "
         "observation dims 1..6; spectral radius of A in [0.2,1.5]; SPD Q, R, P built as U diag(10^[-3,3]) U^T independently, P never "
-        "diagonal), arbitrary measurement y, UKF sigma parameter k from {None} U {-n+1..10}, and runs of 1..50 consecutive steps feeding "
-        "(x,P) back.  Oracle: the Kalman predict-then-update recursion with the innovation at the predicted state evaluated in 50-digit "
+        "diagonal - and, one case in four, the well-conditioned stratum with Q, R, P all inside ONE common decade, where the tolerance "
+        "is at its tightest in every dimension), arbitrary measurement y, UKF sigma parameter k from {None} U {-n+1..10}, and runs of "
+        "1..50 consecutive steps feeding (x,P) back (quick: runs of 26..50 steps get about one case in 32, thorough: uniform).  Oracle: "
+        "the Kalman predict-then-update recursion with the innovation at the predicted state evaluated in 50-digit "
         "mpmath; every step is checked LOCALLY (reference posterior from the filter's own previous output) with backward-error shaped "
-        "tolerances |P-Pref| <= 128 n eps g |P^-|, |x-xref| <= 128 n eps g (|x^-| + |K||innovation|) with g = kappa(S) max(1,|K||C|) (UKF "
+        "tolerances |P-Pref| <= 128 n eps g |P^-|, |x-xref| <= 128 n eps g (mx + |K| my) with g = kappa(S) max(1,|K||C|), mx = | |A||x| + |B||u| + |c1| | and "
+        "my = | |y| + |C| mx + |D||u| + |c2| | the magnitudes of the terms x^- and the innovation are sums of (a forward bound: x^- may be tiny by cancellation) (UKF "
         "additionally x sqrt(kappa(P^-)) and its weight magnitude for the Cholesky-based sigma points), plus symmetry / positive-semidefiniteness of the returned covariance (UKF only for centre "
-        "weight >= 0).  nonlinear: EKF on f = M1 x + a sin(M2 x) + b x.x + B u + s(t), g analogous: the same recursion with A = df/dx, "
-        "C = dg/dx at the prior mean (closed-form derivatives) and innovation y - g(f(x,u),u).  pf: linear systems with 1e3..4e3 (quick) "
-        "particles, y within 2 predictive sigma; 40 independent PF runs (torch seeds derived from the case) must have empirical mean "
-        "within 6 standard errors + sd/ESS_min of the closed-form posterior mean of the DOCUMENTED particle model (prior N(x, nP), "
-        "propagation through f, Gaussian likelihood of y at the propagated particle), RMS error must shrink by a factor in [1.6,10] from N "
+        "weight >= 0).  A run ends early only when the returned covariance is no longer positive definite (it cannot be the next prior): "
+        "that is a violation unless the 50-digit posterior from the same prior is itself singular to within the step's tolerance "
+        "(label prior_lost_pd_stop:conditioning).  nonlinear: f = M1 x + a sin(M2 x) + b x.x + B u + s(t), g analogous, dims 1..6, runs of "
+        "1..50 steps (quick: one case in 16 longer than 8), ended when |x| leaves 1e3.  EKF (4 cases in 7): the same recursion with A = df/dx, "
+        "C = dg/dx at the prior mean (closed-form derivatives) and innovation y - g(f(x,u),u), covariance symmetric PSD.  UKF with centre "
+        "weight >= 0 (k in 0..10, or the default 3-n for n <= 3; 2 in 7) and PF (1000 particles, thorough also 4000; 1 in 7) on the same "
+        "family: returned mean / covariance finite, covariance symmetric and PSD - UKF within 256 eps n (kappa(P_y) max(|P^-|,|K|^2|P_y|) + "
+        "|x^-| sqrt(|P^-|/(n+k)) + |P^-|) (gain through pinv, cancellation in the sigma deviations, Cholesky), PF within 256 eps |P|.  "
+        "pf: linear systems, dims 1..6, y within 1.2 (3 cases in 4) or 3 (1 in 4) predictive Cholesky units; the particle count is tied "
+        "to the closed-form effective sample size N / rho, rho = E[L^2]/E[L]^2 of the documented weights: N = the drawn 1e3 / 4e3 "
+        "(thorough: up to 6e4, compared with 16 N <= 9.6e5), raised one rung (x4; quick: only 1e3 -> 4e3) where the case allows it, and R doubled until "
+        "N / rho >= 100.  40 independent PF runs (torch seeds derived from the case) must have empirical mean "
+        "within 6 standard errors + 3 (rho/N)(|mu2 - mu| + sd) of the closed-form posterior mean of the DOCUMENTED particle model (prior "
+        "N(x, nP), propagation through f, Gaussian likelihood of y at the propagated particle; (rho/N)(mu2 - mu) is the leading bias of a "
+        "self-normalised importance sampling mean), RMS error must shrink by a factor in [1.6,10] from N "
         "to 16N, covariance symmetric PSD.  Non-trivial: P with off-diagonal ratio > 0.1 and C not a multiple of I; run length >= 5; "
-        "distinct = (filter, dims, k, scale decades, run length class).")
+        "distinct = (filter, dims, k, scale stratum, run length class).")
 ASSUMPTIONS = ["filters are driven through NLS subclasses (LTI.state_transition has no t keyword)",
                "float64; Q, R, P SPD with condition <= 1e6 each; UKF k integer > -n",
-               "PF: statistical acceptance test (>= 6 sigma band + 1/ESS bias allowance): a bias below that band is invisible"]
+               "PF: statistical acceptance test (>= 6 sigma band + first-order importance-sampling bias allowance): a bias below that band is invisible",
+               "PF: the measurement is kept within 1.2 (one case in four: 3) Cholesky units of the predicted one, and R is scaled up (label "
+               "R_doubled_for_ESS) until the effective sample size N/rho is >= 100: with more informative / more distant measurements the "
+               "Monte-Carlo error at N <= 6e4 particles is not in its asymptotic regime and neither the 6-sigma band nor the rate test "
+               "would be sound; in dims 5..6 that means mostly weakly informative measurements",
+               "nonlinear UKF / PF: only the covariance clause (finite, symmetric, PSD) is asserted, for UKF only with centre weight >= 0; "
+               "their values on nonlinear systems are not compared with anything (the statement makes no claim)"]
 
 mp.mp.dps = 50
 
@@ -45,7 +64,31 @@ def spd(rs, n, lo=-3, hi=3, force_offdiag=False):
     return (M + M.T) / 2
 
 
-def system(seed, nx, nu, ny):
+def weighted(*pairs):
+    """choice among strategies with integer weights (one_of would drop repeated alternatives, sampled_from keeps repeats)"""
+    idx = [i for i, (_, w) in enumerate(pairs) for _ in range(w)]
+    return st.sampled_from(idx).flatmap(lambda i: pairs[i][0])
+
+
+def spd_decade(rs, n, d):
+    """SPD with all eigenvalues inside the one decade [10^d, 10^(d+1)], random eigenvectors"""
+    U = orth(rs, n)
+    M_ = U @ np.diag(10.0 ** rs.uniform(d, d + 1, size=n)) @ U.T
+    return (M_ + M_.T) / 2
+
+
+def system(seed, nx, nu, ny, wc=False):
+    """wc: the well-conditioned stratum - Q, R, P all inside ONE common decade (drawn after everything else, so that the
+    random stream of the default stratum - and with it every saved replay - is unchanged)"""
+    s = _system(seed, nx, nu, ny)
+    if wc:
+        rs = s["rs"]
+        d = rs.uniform(-3, 2)
+        s["Q"], s["R"], s["P"] = spd_decade(rs, nx, d), spd_decade(rs, ny, d), spd_decade(rs, nx, d)
+    return s
+
+
+def _system(seed, nx, nu, ny):
     rs = np.random.RandomState(seed)
     A = rs.randn(nx, nx)
     rho = max(abs(np.linalg.eigvals(A)))
@@ -91,14 +134,20 @@ def kalman_mp(A, B, C, D, c1, c2, Q, Rm, x, P, u, y, fx=None, gx=None):
 
 def check_cov(rec, name, P, scale, eps=2.2e-16, c=256.0):
     asym = float(np.abs(P - P.T).max())
-    rec.check(asym <= c * eps * scale, "cov_asym:" + name, lambda: "%s covariance asymmetric by %.3g (scale %.3g)" % (name, asym, scale))
+    rec.notes["asym:" + name] = max(rec.notes.get("asym:" + name, 0), asym / (c * eps * scale))
+    ok = rec.check(asym <= c * eps * scale, "cov_asym:" + name, lambda: "%s covariance asymmetric by %.3g (scale %.3g)" % (name, asym, scale))
     lam = float(np.linalg.eigvalsh((P + P.T) / 2).min())
-    rec.check(lam >= -c * eps * scale, "cov_not_psd:" + name, lambda: "%s covariance has eigenvalue %.3g (scale %.3g)" % (name, lam, scale))
+    rec.notes["psd:" + name] = max(rec.notes.get("psd:" + name, 0), -lam / (c * eps * scale))
+    return rec.check(lam >= -c * eps * scale, "cov_not_psd:" + name, lambda: "%s covariance has eigenvalue %.3g (scale %.3g)" % (name, lam, scale)) and ok
 
 
-def compare_step(rec, name, ref, x, P, extra=1.0):
+def compare_step(rec, name, ref, x, P, extra=1.0, terms=None):
     """backward-error shaped comparison: K = P^- C^T S^-1 carries a relative error eps*kappa(S) and the update (I - K C) P^- then
-    cancels, so errors scale with eps * kappa(S) * max(1, |K||C|) * |P^-| (times the dimension for the accumulated products)"""
+    cancels, so errors scale with eps * kappa(S) * max(1, |K||C|) * |P^-| (times the dimension for the accumulated products).
+    The mean x+ = x^- + K (y - yhat) is a FORWARD bound on the terms it is assembled from: x^- = A x + B u + c1 and
+    yhat = C x^- + D u + c2 are themselves sums that may cancel (x^- tiny although |A||x|, |B||u| are not), and the rounding
+    error of a sum scales with the sum of the magnitudes of its terms, not with its value.  terms = (mx, my) are those magnitudes,
+    mx >= |x^-| for the predicted state and my >= |y - yhat| for the innovation (which inherits |C| mx from x^-)."""
     eps = 2.220446049250313e-16
     n = P.shape[0]
     kS = float(np.linalg.cond(ref["S"]))
@@ -108,7 +157,10 @@ def compare_step(rec, name, ref, x, P, extra=1.0):
     eP = float(np.linalg.norm(P - ref["Pp"], 2))
     rec.notes["P:" + name] = max(rec.notes.get("P:" + name, 0), eP / tolP)
     okP = rec.check(eP <= tolP, "cov:" + name, lambda: "%s posterior covariance differs from the Kalman filter by %.3g (tol %.3g, kappa(S)=%.3g)" % (name, eP, tolP, kS))
-    tolx = 128 * eps * gain * (float(np.linalg.norm(ref["xm"])) + float(np.linalg.norm(ref["K"], 2)) * float(np.linalg.norm(ref["inn"])))
+    mx, my = float(np.linalg.norm(ref["xm"])), float(np.linalg.norm(ref["inn"]))
+    if terms is not None:
+        mx, my = max(mx, float(terms[0])), max(my, float(terms[1]))
+    tolx = 128 * eps * gain * (mx + float(np.linalg.norm(ref["K"], 2)) * my)
     ex = float(np.linalg.norm(x - ref["xp"]))
     rec.notes["x:" + name] = max(rec.notes.get("x:" + name, 0), ex / tolx)
     okx = rec.check(ex <= tolx, "mean:" + name, lambda: "%s posterior mean differs from the Kalman filter by %.3g (tol %.3g): %s vs %s" % (name, ex, tolx, x.tolist(), ref["xp"].tolist()))
@@ -120,14 +172,20 @@ class Linear(Sub):
     n = {"quick": 1600, "thorough": 100000}
 
     def strategy(self, tier):
+        # run length: the stated range is 1..50; quick spends one case in 32 on runs of 26..50 steps (they cost ~5x an average case)
+        if tier == "thorough":
+            steps = weighted((st.integers(1, 3), 1), (st.integers(1, 50), 1))
+        else:
+            steps = weighted((st.integers(1, 3), 16), (st.integers(1, 25), 15), (st.integers(26, 50), 1))
         return st.fixed_dictionaries({
             "seed": st.integers(0, 10 ** 7), "nx": st.integers(1, 6), "nu": st.integers(1, 6), "ny": st.integers(1, 6),
             "filter": st.sampled_from(("EKF", "UKF")), "k": st.one_of(st.none(), st.integers(-5, 10)),
-            "steps": st.one_of(st.integers(1, 3), st.integers(1, 50 if tier == "thorough" else 25)), "per_call": st.booleans()})
+            "steps": steps, "per_call": st.booleans(), "wc": st.sampled_from((False, False, False, True))})
 
     def oracle(self, case, rec):
         nx, nu, ny = case["nx"], case["nu"], case["ny"]
-        s = system(case["seed"], nx, nu, ny)
+        wc = bool(case.get("wc", False))
+        s = system(case["seed"], nx, nu, ny, wc)
         rs = s["rs"]
         model = LinNLS(s)
         k = case["k"]
@@ -143,7 +201,12 @@ class Linear(Sub):
         name = case["filter"]
         offd = nx > 1 and float(np.abs(P - np.diag(np.diag(P))).max()) > 0.1 * float(np.abs(np.diag(P)).max())
         cmulti = not (ny == nx and np.allclose(s["C"], s["C"][0, 0] * np.eye(nx)))
-        rec.label(name, "nx%d" % nx, "steps>=5" if case["steps"] >= 5 else "steps<5")
+        rec.label(name, "nx%d" % nx, "steps>=5" if case["steps"] >= 5 else "steps<5", "one_decade" if wc else "six_decades")
+        if case["steps"] > 25:
+            rec.label("steps26-50")
+        if wc and nx > 1:
+            rec.label("one_decade_multidim:" + name)
+        done = 0
         for i in range(case["steps"]):
             u = rs.randn(nu) * 10 ** rs.uniform(-1, 1)
             y = rs.randn(ny) * 10 ** rs.uniform(-1, 1.5)
@@ -161,7 +224,17 @@ class Linear(Sub):
                 kk = (3 - nx) if k is None else k
                 # sigma points through a Cholesky factor of (n+k) P and weights 1/(2(n+k)): error grows with kappa(P^-) and |w0|
                 extra = max(1.0, float(np.linalg.cond(ref["Pm"])) ** 0.5) * max(1.0, abs(kk) / (nx + kk), 1.0 / (nx + kk)) * 8
-            ok, scale = compare_step(rec, name, ref, xo, Po, extra)
+            # magnitudes of the terms the predicted state and the innovation are sums of (UKF: every sigma point x +- l_i, |l_i| <=
+            # sqrt((n+k)|P|), goes through f and g with weight 1/(2(n+k)) - their spread cancels in the mean but not in its rounding)
+            aA, aC = np.abs(s["A"]), np.abs(s["C"])
+            spread_x = spread_y = 0.0
+            if name == "UKF":
+                kk_ = (3 - nx) if k is None else k
+                spread_x = nx * math.sqrt(float(np.linalg.norm(P, 2)) / (nx + kk_))
+                spread_y = nx * math.sqrt(float(np.linalg.norm(ref["Pm"], 2)) / (nx + kk_))
+            tx = aA @ (np.abs(x) + spread_x) + np.abs(s["B"]) @ np.abs(u) + np.abs(s["c1"])
+            ty = np.abs(y) + aC @ (tx + spread_y) + np.abs(s["D"]) @ np.abs(u) + np.abs(s["c2"])
+            ok, scale = compare_step(rec, name, ref, xo, Po, extra, terms=(np.linalg.norm(tx), np.linalg.norm(ty)))
             if name == "EKF" or ((3 - nx) if k is None else k) >= 0:
                 check_cov(rec, name, Po, scale)
             if not ok:
@@ -169,11 +242,23 @@ class Linear(Sub):
             # the next prior is the symmetric part of the returned covariance: each step is judged on a valid (symmetric) input,
             # otherwise the round-off asymmetry of an ill-conditioned earlier step would be charged to a later one
             x, P = xo, (Po + Po.T) / 2
-            if np.linalg.eigvalsh((P + P.T) / 2).min() <= 0:
-                rec.label("prior_lost_pd_stop")
+            done = i + 1
+            if np.linalg.eigvalsh(P).min() <= 0:
+                # the returned covariance is not positive definite, so it cannot be the next prior.  Whose fault?  The exact posterior
+                # (50-digit reference from the SAME prior) is positive definite; if its smallest eigenvalue lies above the
+                # conditioning-based tolerance of this step, pypose's own update lost definiteness (a violation of the PSD clause -
+                # by Weyl's inequality the covariance comparison above has then failed too); otherwise the posterior is singular to
+                # within what the conditioning of the step allows: labelled stop, no verdict on the remaining steps.
+                lam_ref = float(np.linalg.eigvalsh(ref["Pp"]).min())
+                tolP = 128 * 2.220446049250313e-16 * scale
+                if not rec.check(lam_ref <= 2 * tolP, "cov_lost_pd:" + name, lambda: "%s returned an indefinite covariance although the exact posterior has smallest eigenvalue %.3g (tolerance of the step %.3g)" % (name, lam_ref, tolP)):
+                    return
+                rec.label("prior_lost_pd_stop:conditioning")
                 break
+        if done >= 26:
+            rec.label("reached_steps26-50")
         if offd and cmulti or case["steps"] >= 5:
-            rec.nt((name, nx, nu, ny, case["k"], min(case["steps"], 5), case["per_call"]))
+            rec.nt((name, nx, nu, ny, case["k"], min(case["steps"], 5) if case["steps"] <= 25 else 26, case["per_call"], wc))
 
     def simplify(self, case):
         if case["steps"] > 1:
@@ -182,6 +267,8 @@ class Linear(Sub):
         for k in ("nx", "nu", "ny"):
             if case[k] > 1:
                 yield dict(case, **{k: case[k] - 1})
+        if case.get("wc"):
+            yield dict(case, wc=False)
 
 
 def nl_parts(seed, nx, nu, ny):
@@ -225,68 +312,196 @@ def nl_C(p, x):
     return p["N1"] - p["c"] * np.diag(np.sin(p["N2"] @ x)) @ p["N2"]
 
 
+def ukf_scale(p, x, P, u, t, k):
+    """The documented UKF equations in numpy (sigma points = columns of the lower Cholesky factor), used ONLY to size the
+    rounding error of the step: returns predicted mean, P^-, P_y and the gain."""
+    n = x.size
+    w = np.array([k / (n + k)] + [1.0 / (2 * (n + k))] * (2 * n))
+
+    def pts(m, C_):
+        L = np.linalg.cholesky((n + k) * C_)
+        return np.concatenate([m[None], m[None] + L.T, m[None] - L.T], 0)
+    xs = np.stack([nl_f(p, z, u, t) for z in pts(x, P)])
+    xe = w @ xs
+    Pm = (w[:, None, None] * np.einsum("ki,kj->kij", xs - xe, xs - xe)).sum(0) + p["Q"]
+    Pm = (Pm + Pm.T) / 2
+    z2 = pts(xe, Pm)
+    ys = np.stack([nl_g(p, z, u, t) for z in z2])
+    ye = w @ ys
+    Py = (w[:, None, None] * np.einsum("ki,kj->kij", ys - ye, ys - ye)).sum(0) + p["R"]
+    Pxy = (w[:, None, None] * np.einsum("ki,kj->kij", z2 - xe, ys - ye)).sum(0)
+    return xe, Pm, Py, Pxy @ np.linalg.inv(Py)
+
+
 class NonLinear(Sub):
+    """EKF: equals the Kalman recursion on the linearisation at the prior mean (+ covariance valid).  UKF (centre weight >= 0)
+    and PF on the same nonlinear family: the returned covariance is finite, symmetric and positive semidefinite (that clause of
+    the statement is not restricted to linear systems); nothing else is claimed about their values."""
     name = "nonlinear"
-    n = {"quick": 1200, "thorough": 40000}
+    n = {"quick": 1400, "thorough": 48000}
 
     def strategy(self, tier):
-        return st.fixed_dictionaries({"seed": st.integers(0, 10 ** 7), "nx": st.integers(1, 5), "nu": st.integers(1, 4), "ny": st.integers(1, 5),
-                                      "steps": st.integers(1, 8), "t0": st.integers(0, 20)})
+        if tier == "thorough":
+            steps = weighted((st.integers(1, 8), 1), (st.integers(1, 50), 1))
+            npart = st.sampled_from((1000, 1000, 4000))
+        else:
+            steps = weighted((st.integers(1, 8), 15), (st.integers(9, 50), 1))
+            npart = st.just(1000)
+        return st.fixed_dictionaries({"seed": st.integers(0, 10 ** 7), "nx": st.integers(1, 6), "nu": st.integers(1, 6), "ny": st.integers(1, 6),
+                                      "steps": steps, "t0": st.integers(0, 20),
+                                      "filter": st.sampled_from(("EKF", "EKF", "EKF", "EKF", "UKF", "UKF", "PF")),
+                                      "k": st.one_of(st.none(), st.integers(0, 10)), "N": npart})
 
     def oracle(self, case, rec):
         nx, nu, ny = case["nx"], case["nu"], case["ny"]
+        flt = case.get("filter", "EKF")
         p = nl_parts(case["seed"], nx, nu, ny)
         rs = p["rs"]
         model = NonLin(p)
         T = lambda a: torch.tensor(a)
-        ekf = pp.module.EKF(model, T(p["Q"]), T(p["R"]))
+        eps = 2.220446049250313e-16
+        k = case.get("k")
+        if flt == "UKF" and k is None and nx > 3:
+            k = 0            # the default k = 3 - n would make the centre weight negative: no covariance claim there
+        kk = (3 - nx) if k is None else k
+        if flt == "EKF":
+            f = pp.module.EKF(model, T(p["Q"]), T(p["R"]))
+        elif flt == "UKF":
+            f = pp.module.UKF(model, T(p["Q"]), T(p["R"]))
+        else:
+            f = pp.module.PF(model, T(p["Q"]), T(p["R"]), particles=case.get("N", 1000))
+            torch.manual_seed(case["seed"] % 100003)
+        name = flt + "nl"
         x, P = p["x"].copy(), p["P"].copy()
+        done = 0
         for i in range(case["steps"]):
             t = float(case["t0"] + i)
             u = rs.randn(nu)
             y = rs.randn(ny) * 3
-            with rec.sut("EKF(nonlinear)"):
-                xo, Po = ekf(T(x), T(y), T(u), T(P), t=torch.tensor(t))
-            xo, Po = xo.numpy(), Po.numpy()
-            fx = nl_f(p, x, u, t)
-            ref = kalman_mp(nl_A(p, x), None, nl_C(p, x), None, None, None, p["Q"], p["R"], x, P, u, y, fx=fx, gx=nl_g(p, fx, u, t))
-            ok, scale = compare_step(rec, "EKFnl", ref, xo, Po, extra=8.0)
-            check_cov(rec, "EKFnl", Po, scale)
-            if not ok:
-                return
+            if flt == "EKF":
+                with rec.sut("EKF(nonlinear)"):
+                    xo, Po = f(T(x), T(y), T(u), T(P), t=torch.tensor(t))
+                xo, Po = xo.numpy(), Po.numpy()
+                fx = nl_f(p, x, u, t)
+                ref = kalman_mp(nl_A(p, x), None, nl_C(p, x), None, None, None, p["Q"], p["R"], x, P, u, y, fx=fx, gx=nl_g(p, fx, u, t))
+                # term magnitudes of f(x,u,t) and of the innovation y - g(f,u,t) (g is Lipschitz with |N1| + |c||N2| in the error of f)
+                tx = np.abs(p["M1"]) @ np.abs(x) + abs(p["a"]) + abs(p["b"]) * x * x + np.abs(p["B"]) @ np.abs(u) + 1.0
+                ty = np.abs(y) + (np.abs(p["N1"]) + abs(p["c"]) * np.abs(p["N2"])) @ tx + abs(p["c"]) + np.abs(p["D"]) @ np.abs(u) + 0.1 * t
+                ok, scale = compare_step(rec, "EKFnl", ref, xo, Po, extra=8.0, terms=(np.linalg.norm(tx), np.linalg.norm(ty)))
+                check_cov(rec, "EKFnl", Po, scale)
+                if not ok:
+                    return
+            else:
+                with rec.sut(flt + "(nonlinear)"):
+                    xo, Po = f(T(x), T(y), T(u), T(P), t=torch.tensor(t), **({"k": k} if flt == "UKF" else {}))
+                xo, Po = xo.numpy(), Po.numpy()
+                if not rec.check(bool(np.all(np.isfinite(xo)) and np.all(np.isfinite(Po))), "nonfinite:" + name, "%s returned non-finite values on a nonlinear system" % flt):
+                    return
+                if flt == "UKF":
+                    # P = P^- - K P_y K^T is, in exact arithmetic, the Schur complement of P_y in sum_i W_i [ex_i; ey_i][ex_i; ey_i]^T + diag(0, R),
+                    # positive semidefinite for ANY f, g as long as all W_i >= 0 (the second sigma set reproduces P^- exactly).  Rounding:
+                    # (a) the gain through pinv(P_y): eps kappa(P_y) |K|^2 |P_y|; (b) the sigma deviations ex_i = x^- - (x^- +- l_i) carry
+                    # eps |x^-| each, so sum W ex ex^T misses P^- by 2 n eps |x^-| sqrt(|P^-|/(n+k)); (c) Cholesky / summations: n eps |P^-|.
+                    xe, Pm, Py, K = ukf_scale(p, x, P, u, t, kk)
+                    nPm, nK = float(np.linalg.norm(Pm, 2)), float(np.linalg.norm(K, 2))
+                    scale = nx * (float(np.linalg.cond(Py)) * max(nPm, nK * nK * float(np.linalg.norm(Py, 2)))
+                                  + float(np.linalg.norm(xe)) * math.sqrt(nPm / (nx + kk)) + nPm)
+                else:
+                    scale = float(np.linalg.norm(Po, 2))
+                if not check_cov(rec, name, Po, scale):
+                    return
             x, P = xo, (Po + Po.T) / 2
+            done = i + 1
             if not np.all(np.isfinite(x)) or np.abs(x).max() > 1e3:
+                rec.label("state_left_1e3_stop")
                 break
-        rec.label("nx%d" % nx)
-        rec.nt(("ekf_nl", nx, nu, ny, min(case["steps"], 4), case["t0"] > 0))
+            if flt != "EKF":
+                ev = np.linalg.eigvalsh(P)
+                if ev[0] <= 1e-12 * ev[-1]:
+                    # UKF / PF factorise the prior (Cholesky): a numerically singular fed-back covariance is not a valid next prior
+                    rec.label("prior_near_singular_stop:" + name)
+                    break
+        rec.label("nx%d" % nx, name, "ran_steps>=9" if done >= 9 else "ran_steps<9")
+        if flt == "UKF":
+            rec.label("UKFnl:w0=0" if kk == 0 else "UKFnl:w0>0")
+        if flt == "EKF":
+            rec.nt(("ekf_nl", nx, nu, ny, min(case["steps"], 4), case["t0"] > 0))
+        else:
+            rec.nt((name, nx, nu, ny, min(case["steps"], 4), case["t0"] > 0, kk if flt == "UKF" else case.get("N", 1000)))
+
+    def simplify(self, case):
+        if case["steps"] > 1:
+            yield dict(case, steps=1)
+            yield dict(case, steps=case["steps"] // 2)
+        for k in ("nx", "nu", "ny"):
+            if case[k] > 1:
+                yield dict(case, **{k: case[k] - 1})
+
+
+def lognorm(d, S):
+    return -0.5 * d.size * math.log(2 * math.pi) - 0.5 * float(np.linalg.slogdet(S)[1]) - 0.5 * float(d @ np.linalg.solve(S, d))
+
+
+def pf_model(s, u, z, nx):
+    """Closed forms of the DOCUMENTED particle model on a linear system: particles x_i ~ N(x, n P) pushed through f are N(m, Sig)
+    (no process noise is added to them), weights L(x_i) = N(y; C x_i + D u + c2, R), self-normalised, multinomial resampling.
+    The measurement sits z Cholesky units of S away from the predicted one.  Returns the posterior mean / covariance the estimate
+    converges to, and the two numbers that govern HOW FAST: rho = E[L^2]/E[L]^2 (effective sample size = N / rho; uses
+    N(y;.,R)^2 = (4 pi)^(-ny/2) |R|^(-1/2) N(y;.,R/2)) and mu2, the posterior mean under R/2, which gives the leading bias of a
+    self-normalised importance sampling mean, -(1/N) E[w^2 (x - mu)] = -(rho/N)(mu2 - mu)."""
+    A, C, R = s["A"], s["C"], s["R"]
+    ny = R.shape[0]
+    m = A @ s["x"] + s["B"] @ u + s["c1"]
+    Sig = nx * A @ s["P"] @ A.T
+    yh = C @ m + s["D"] @ u + s["c2"]
+    S = C @ Sig @ C.T + R
+    S = (S + S.T) / 2
+    d = np.linalg.cholesky(S) @ z
+    K = Sig @ C.T @ np.linalg.inv(S)
+    S2 = S - R / 2
+    logrho = -0.5 * ny * math.log(4 * math.pi) - 0.5 * float(np.linalg.slogdet(R)[1]) + lognorm(d, S2) - 2 * lognorm(d, S)
+    return {"y": yh + d, "mu": m + K @ d, "Pp": (np.eye(nx) - K @ C) @ Sig, "mu2": m + Sig @ C.T @ np.linalg.solve(S2, d),
+            "rho": math.exp(min(logrho, 700.0)), "m": m, "Sig": Sig}
 
 
 class PFConv(Sub):
     name = "pf"
     n = {"quick": 48, "thorough": 1000}
     budget_s = {"quick": 150.0, "thorough": 3000.0}
+    ESS_MIN = 100.0          # every run keeps an effective sample size N / rho of at least this
+    LADDER = (1000, 4000, 16000, 60000)
 
     def strategy(self, tier):
-        Ns = (1000, 4000) if tier == "quick" else (1000, 4000, 16000, 60000)
-        return st.fixed_dictionaries({"seed": st.integers(0, 10 ** 7), "nx": st.integers(1, 4), "nu": st.integers(1, 3), "ny": st.integers(1, 4),
-                                      "N": st.sampled_from(Ns)})
+        Ns = (1000, 1000, 4000) if tier == "quick" else (1000, 4000, 16000, 60000)
+        # lift: the particle count may go one rung above the drawn N, up to this value, when the effective sample size asks for it
+        # (4x the cost; quick: 1000 -> 4000 only, a 16000 / 256000-particle case would take as long as a whole quick shard)
+        lift = (0, 0, 0, 4000) if tier == "quick" else (0, 60000)
+        return st.fixed_dictionaries({"seed": st.integers(0, 10 ** 7), "nx": st.integers(1, 6), "nu": st.integers(1, 6), "ny": st.integers(1, 6),
+                                      "N": st.sampled_from(Ns), "yr": st.sampled_from((1.2, 1.2, 1.2, 3.0)), "lift": st.sampled_from(lift)})
 
     def oracle(self, case, rec):
-        nx, nu, ny, N = case["nx"], case["nu"], case["ny"], case["N"]
+        nx, nu, ny, N0 = case["nx"], case["nu"], case["ny"], case["N"]
+        yr = float(case.get("yr", 1.2))
         s = system(case["seed"], nx, nu, ny)
         rs = s["rs"]
         # moderate scales so that the effective sample size stays reasonable
         s["P"], s["R"], s["Q"] = spd(rs, nx, -1, 0.5), spd(rs, ny, -1, 0.5), spd(rs, nx, -2, 0)
         u = rs.randn(nu)
-        m = s["A"] @ s["x"] + s["B"] @ u + s["c1"]
-        Sig = nx * s["A"] @ s["P"] @ s["A"].T
-        S = s["C"] @ Sig @ s["C"].T + s["R"]
-        L = np.linalg.cholesky(S)
-        y = s["C"] @ m + s["D"] @ u + s["c2"] + L @ rs.uniform(-1.2, 1.2, size=ny)
-        K = Sig @ s["C"].T @ np.linalg.inv(S)
-        mu = m + K @ (y - (s["C"] @ m + s["D"] @ u + s["c2"]))
-        Pp = (np.eye(nx) - K @ s["C"]) @ Sig
-        sd = np.sqrt(np.maximum(np.diag(Pp), 1e-300))
+        z = rs.uniform(-1.2, 1.2, size=ny) * (yr / 1.2)
+        # particle count from the effective sample size: with "lift" one rung of the ladder above the drawn N (never beyond lift <= 60000,
+        # 16 N <= 1e6); where that leaves N / rho < ESS_MIN the measurement noise R is doubled until it does not (a less informative
+        # measurement - still an SPD R - instead of a run whose Monte-Carlo error is not yet in its asymptotic regime)
+        ladder = [n_ for n_ in self.LADDER if N0 <= n_ <= max(N0, int(case.get("lift", 0)))][:2]
+        infl = 0
+        while True:
+            q = pf_model(s, u, z, nx)
+            if self.ESS_MIN * q["rho"] <= ladder[-1] or infl >= 60:
+                break
+            s["R"] = s["R"] * 2.0
+            infl += 1
+        N = ladder[0] if self.ESS_MIN * q["rho"] <= ladder[0] else ladder[-1]
+        y, mu, rho = q["y"], q["mu"], q["rho"]
+        sd = np.sqrt(np.maximum(np.diag(q["Pp"]), 1e-300))
         model = LinNLS(s)
         T = lambda a: torch.tensor(a)
 
@@ -301,27 +516,44 @@ class PFConv(Sub):
         with rec.sut("PF"):
             est, covs = runs(N, 40, case["seed"] * 100 + 1)
             est16, _ = runs(16 * N, 40, case["seed"] * 100 + 50)
+        if not rec.check(bool(np.all(np.isfinite(est)) and np.all(np.isfinite(est16))), "nonfinite:PF", "PF returned a non-finite mean"):
+            return
         mean, se = est.mean(0), est.std(0, ddof=1) / math.sqrt(est.shape[0])
-        # effective sample size of the documented importance weights (prior predictive vs posterior): ESS/N ~ sqrt(det(Pp)/det(Sig))-ish;
-        # use the conservative allowance sd * 50 / N for the O(1/ESS) bias of self-normalised importance sampling
-        allow = 6 * se + sd * 50.0 / N + 1e-12
+        # bias of the self-normalised importance sampling mean: leading term (rho/N)(mu2 - mu) (see pf_model); allowed three times
+        # over plus the same multiple of the posterior sd for the next order (rho/N <= 1/ESS_MIN)
+        allow = 6 * se + 3.0 * rho / N * (np.abs(q["mu2"] - mu) + sd) + 1e-12
         dev = np.abs(mean - mu)
-        z = float((dev / allow).max())
-        rec.notes["pf_z"] = max(rec.notes.get("pf_z", 0), z)
-        rec.check(z <= 1.0, "pf_mean", lambda: "PF (N=%d): mean of 40 runs %s deviates from the posterior mean of the documented particle model %s by %s = %.1f standard errors" % (N, mean.tolist(), mu.tolist(), dev.tolist(), float((dev / np.maximum(se, 1e-300)).max())))
+        zc = float((dev / allow).max())
+        rec.notes["pf_z"] = max(rec.notes.get("pf_z", 0), zc)
+        rec.check(zc <= 1.0, "pf_mean", lambda: "PF (N=%d, N/rho=%.0f): mean of 40 runs %s deviates from the posterior mean of the documented particle model %s by %s = %.1f standard errors" % (N, N / rho, mean.tolist(), mu.tolist(), dev.tolist(), float((dev / np.maximum(se, 1e-300)).max())))
         rms = math.sqrt(float(((est - mu) ** 2).sum(1).mean()))
         rms16 = math.sqrt(float(((est16 - mu) ** 2).sum(1).mean()))
         ratio = rms / max(rms16, 1e-300)
         rec.notes["pf_rate"] = ratio
+        rec.notes["pf_rate_inv"] = 1.0 / max(ratio, 1e-300)
         # 40 runs each: log-ratio has sd <= 0.16, so [1.6, 10] is a > 5.5 sigma band around the Monte-Carlo rate 4
         rec.check(1.6 <= ratio <= 10.0 or rms < 1e-9, "pf_rate", lambda: "PF RMS error %.3g at N=%d vs %.3g at 16N: ratio %.2f outside [1.6,10] (Monte-Carlo rate is 4)" % (rms, N, rms16, ratio))
         for Po in covs[:4]:
+            if not rec.check(bool(np.all(np.isfinite(Po))), "nonfinite:PF", "PF returned a non-finite covariance"):
+                return
             check_cov(rec, "PF", Po, float(np.linalg.norm(Po, 2)))
-        rec.label("N%d" % N)
-        rec.nt(("pf", nx, ny, N))
+        rec.label("N%d" % N, "nx%d" % nx, "ny%d" % ny, "y_within_%g_sigma" % yr, "rho<10" if rho < 10 else "rho<100" if rho < 100 else "rho>=100")
+        if infl:
+            rec.label("R_doubled_for_ESS", "R_doubled>=5x" if infl >= 5 else "R_doubled<5x")
+        if N != N0:
+            rec.label("N_raised_for_ESS")
+        rec.nt(("pf", nx, ny, N, yr))
+
+    def simplify(self, case):
+        for k in ("nx", "nu", "ny"):
+            if case[k] > 1:
+                yield dict(case, **{k: case[k] - 1})
+        if case.get("yr", 1.2) != 1.2:
+            yield dict(case, yr=1.2)
 
 
-SUBS = [Linear(), NonLinear(), PFConv()]
+# the particle filter shards are the longest units: listed first so that they start first (better packing of the worker pool)
+SUBS = [PFConv(), Linear(), NonLinear()]
 
 
 def selftest():
@@ -339,3 +571,17 @@ def selftest():
     assert np.abs(J - nl_A(p, x)).max() < 1e-7
     Jg = np.stack([(nl_g(p, x + h * e, uu, 1.0) - nl_g(p, x - h * e, uu, 1.0)) / (2 * h) for e in np.eye(3)], 1)
     assert np.abs(Jg - nl_C(p, x)).max() < 1e-7
+    # closed forms of the particle model (posterior mean, weight second moment rho, leading-bias mean mu2) against plain Monte Carlo
+    s = system(7, 2, 1, 2)
+    rs = np.random.RandomState(0)
+    s["P"], s["R"] = spd(rs, 2, -1, 0.5), spd(rs, 2, 0, 0.5)
+    u, z = np.array([0.4]), np.array([0.8, -0.5])
+    q = pf_model(s, u, z, 2)
+    X = rs.multivariate_normal(q["m"], q["Sig"], size=400000)
+    r = q["y"] - (X @ s["C"].T + s["D"] @ u + s["c2"])
+    Lw = np.exp(-0.5 * np.einsum("ki,ij,kj->k", r, np.linalg.inv(s["R"]), r))
+    assert 1.2 < q["rho"] < 50, q["rho"]
+    assert abs((Lw ** 2).mean() / Lw.mean() ** 2 / q["rho"] - 1) < 0.05, ((Lw ** 2).mean() / Lw.mean() ** 2, q["rho"])
+    sdp = np.sqrt(np.diag(q["Pp"]))
+    assert np.abs((Lw[:, None] * X).sum(0) / Lw.sum() - q["mu"]).max() < 0.02 * sdp.max()
+    assert np.abs((Lw[:, None] ** 2 * X).sum(0) / (Lw ** 2).sum() - q["mu2"]).max() < 0.03 * sdp.max()
